@@ -5,6 +5,7 @@ import (
 	"fmt"
 	"io"
 
+	"github.com/dpb587/rdfkit-go/internal/ioutil"
 	"github.com/dpb587/rdfkit-go/iri"
 	"github.com/dpb587/rdfkit-go/iri/iriutil"
 	"github.com/dpb587/rdfkit-go/rdf/blanknodes"
@@ -92,7 +93,7 @@ func (s EncoderConfig) apply(d *EncoderConfig) {
 
 func (s EncoderConfig) newEncoder(w io.Writer) (*Encoder, error) {
 	e := &Encoder{
-		w:                json.NewEncoder(w),
+		w:                json.NewEncoder(ioutil.NewJSONC1EscapingWriter(w)),
 		prefixes:         iriutil.NewUsagePrefixMapper(iri.NewPrefixManager(s.prefixes)),
 		bnStringProvider: s.bnStringProvider,
 		builder:          rdfdescription.NewDatasetResourceListBuilder(),
